@@ -358,10 +358,27 @@ structure ReqCfg where
   processReturnsPipelineErr : Bool
   /-- regenerated fact `submitRejectNotifies` -/
   rejectNotifies : Bool
+  /-- regenerated fact: some function of query/context other than `SendResponse` calls the unguarded
+  `sendResponse` (`false` = the source as it is: `unguardedSendResponseCallers = []`) -/
+  collectUnguarded : Bool
 
-/-- the responses of a request whose pipeline ended in state `s` (`true` = error response) -/
-def runResponses (rc : ReqCfg) (tolerated : Bool) (s : State) : List Bool :=
-  let cb := responses s.sh.fired
+/-- the `SendResponse` calls of a data-search request in the order they happen: a failing group-by
+tag value collect (`LeafGroupingContext.collectGroupByTagValues`, run in the `Complete()` hook of the
+last grouping task, i.e. inside `completeStage` of a stage, hence before the pipeline's completion
+callback) and then the completion callback -/
+def sendResponseCalls (collectFails : Bool) (fired : List Fired) : List Bool :=
+  (if collectFails then [true] else []) ++ fired.map Fired.arg
+
+/-- the responses of a request whose pipeline ended in state `s` (`true` = error response).
+Every responder goes through `LeafExecuteContext.SendResponse`'s CAS — unless the collect answers
+through the unguarded `sendResponse` (`collectUnguarded`), or `Process` hands the pipeline's error to
+`TaskHandler.process` as well (`processReturnsPipelineErr`). -/
+def runResponses (rc : ReqCfg) (tolerated collectFails : Bool) (s : State) : List Bool :=
+  let guarded :=
+    if rc.collectUnguarded then (s.sh.fired.map Fired.arg).foldl Leaf.sendResponse Leaf.init
+    else (sendResponseCalls collectFails s.sh.fired).foldl Leaf.sendResponse Leaf.init
+  let cb := guarded.sent
+  (if rc.collectUnguarded && collectFails then [true] else []) ++
   (if tolerated then cb.map (fun _ => false) else cb) ++
     (if rc.processReturnsPipelineErr && !tolerated && s.sh.fired.any (·.arg) then [true] else [])
 
@@ -465,6 +482,11 @@ def leafProcessDataSearchOrder : List String :=
 /-- `leafTaskProcessor.processMetadataSuggest`: the callback answers, the function returns `nil` -/
 def leafProcessMetadataSuggestOrder : List String :=
   ["if err != nil", "then:return ErrUnmarshalSuggest", "newExecutePipelineFn(trackerpkg.NewStageTracker(ctx), (func(err error) literal))", "λ1:if err != nil && !errors.Is(err, constants.ErrNotFound)", "λ1:stream.Send(&protoCommonV1.TaskResponse{…})", "λ1:if err != nil", "pipeline.Execute(stage.NewMetadataSuggestStage(leafExecuteCtx))", "return nil"]
+
+/-- `LeafGroupingContext.collectGroupByTagValues`: a `CollectTagValues` failure is answered through the
+guarded `SendResponse(err)`, then `return` -/
+def collectGroupByTagValuesOrder : List String :=
+  ["then:return", "storageExecuteCtx.CollectTagValues((func() literal))", "λ1:loop:then:ctx.reduceTagValues(tagIndex, nil)", "λ1:loop:metaDB.CollectTagValues(tagKey.ID, tagValueIDs, tagValues)", "λ1:loop:if err != nil", "λ1:loop:then:ctx.leafExecuteCtx.SendResponse(err)", "λ1:loop:then:return", "λ1:loop:ctx.reduceTagValues(tagIndex, tagValues)"]
 
 /-- `TaskHandler.process`: pool hand-over; answers a `Process` error; the panic handler answers -/
 def taskHandlerProcessOrder : List String :=
